@@ -22,27 +22,41 @@ import (
 	"verifharness/tla"
 )
 
-func (w *world) deploy(root *Node, baseStor map[string]map[string]int) (common.Hash, error) {
-	image := compile(root)
+// deploy: every contract of the universe holds the image of the tree; returns the base block, the image, the ample gas.
+func (w *world) deploy(root *Node, baseStor map[string]map[string]int, bal map[string]int) (common.Hash, []byte, uint64, error) {
+	image, ample := build(root)
 	codeAt := map[string][]byte{}
 	for _, n := range contractNames {
 		codeAt[n] = image
 	}
-	return w.base(codeAt, baseStor)
+	h, err := w.baseBal(codeAt, baseStor, bal)
+	return h, image, ample, err
 }
 
-func (w *world) runTree(root *Node, gas uint64, baseStor map[string]map[string]int) (*runResult, error) {
-	h, err := w.deploy(root, baseStor)
+// runRoot: the transaction-level frame of the tree - a call with the node id as call data, or a contract creation with
+// the image (init header) as init code.
+func (w *world) runRoot(h common.Hash, root *Node, image []byte, gas uint64) *runResult {
+	if root.Kind == "create" {
+		return w.exec(h, "create", addrOf[root.To], initCode(image, root.ID), gas, root.Val, true, obsNames)
+	}
+	return w.exec(h, "call", addrOf[root.To], []byte{byte(root.ID)}, gas, root.Val, true, obsNames)
+}
+
+func (w *world) runTree(root *Node, gas uint64, baseStor map[string]map[string]int, bal map[string]int) (*runResult, error) {
+	h, image, ample, err := w.deploy(root, baseStor, bal)
 	if err != nil {
 		return nil, err
 	}
-	return w.call(h, addrOf[root.To], []byte{byte(root.ID)}, gas, root.Val, true, allNames), nil
+	if gas == 0 {
+		gas = ample
+	}
+	return w.runRoot(h, root, image, gas), nil
 }
 
 // flavours: the concrete way a frame the spec lets "fail" is made to fail on the real EVM.
 var (
 	flavours   = []string{"invalid", "oog", "underflow", "badjump"}
-	roFlavours = []string{"invalid", "oog", "wp_sstore", "wp_log", "wp_suicide", "wp_call", "underflow", "badjump"}
+	roFlavours = []string{"invalid", "oog", "wp_sstore", "wp_log", "wp_suicide", "wp_call", "underflow", "badjump", "wp_create"}
 )
 
 type adapter struct {
@@ -52,8 +66,18 @@ type adapter struct {
 	root  *Node
 	stack []*Node
 	ro    []bool
+	ctx   []string // executing account of the frames on the stack
 	ids   int
 	base  map[string]map[string]int
+	bal   map[string]int
+}
+
+func fullBal(bal map[string]int) map[string]int {
+	out := map[string]int{}
+	for _, n := range obsNames {
+		out[n] = bal[n]
+	}
+	return out
 }
 
 func (a *adapter) pick(set []string, salt int) string {
@@ -64,10 +88,17 @@ func (a *adapter) pick(set []string, salt int) string {
 
 func (a *adapter) Reset(init map[string]tla.Value) (engine.Fields, error) {
 	a.beh++
-	a.root, a.stack, a.ro, a.ids = nil, nil, nil, 0
+	a.root, a.stack, a.ro, a.ctx, a.ids = nil, nil, nil, nil, 0
 	a.base = map[string]map[string]int{}
-	f := engine.Fields{"bal": initBal}
+	a.bal = fullBal(initBal)
 	if wv, ok := init["w"]; ok {
+		// balances of the base block = the initial balances of the spec (accounts the spec does not have keep theirs)
+		bl := wv.F("bal")
+		for _, n := range obsNames {
+			if v, ok := bl.Get(tla.Str(n)); ok {
+				a.bal[n] = v.I()
+			}
+		}
 		// committed storage of the base block = the initial storage of the spec
 		st := wv.F("stor")
 		for _, c := range contractNames {
@@ -81,7 +112,7 @@ func (a *adapter) Reset(init map[string]tla.Value) (engine.Fields, error) {
 			}
 		}
 	}
-	f["base"] = fullBase(a.base)
+	f := engine.Fields{"bal": a.bal, "base": fullBase(a.base)}
 	return f, nil
 }
 
@@ -92,14 +123,21 @@ func (a *adapter) Apply(s engine.Step) (engine.Fields, error) {
 		a.ids++
 		n := &Node{ID: a.ids, Kind: arg[0].S(), To: arg[1].S(), Val: arg[2].I()}
 		ro := n.Kind == "staticcall"
+		ctx := n.To
 		if len(a.stack) == 0 {
 			a.root = n
 		} else {
 			p := a.stack[len(a.stack)-1]
 			p.Items = append(p.Items, &Item{Op: "call", Child: n})
 			ro = ro || a.ro[len(a.ro)-1]
+			if n.Kind == "callcode" || n.Kind == "delegatecall" {
+				ctx = a.ctx[len(a.ctx)-1]
+			}
 		}
-		a.stack, a.ro = append(a.stack, n), append(a.ro, ro)
+		a.stack, a.ro, a.ctx = append(a.stack, n), append(a.ro, ro), append(a.ctx, ctx)
+	case "Collide":
+		p := a.top()
+		p.Items = append(p.Items, &Item{Op: "collide", Slot: "n" + a.ctx[len(a.ctx)-1], Val: arg[0].I()})
 	case "SStore":
 		p := a.top()
 		p.Items = append(p.Items, &Item{Op: "sstore", Slot: arg[0].S(), Val: arg[1].I()})
@@ -137,29 +175,39 @@ func (a *adapter) top() *Node {
 	return a.stack[len(a.stack)-1]
 }
 
-func (a *adapter) pop() { a.stack, a.ro = a.stack[:len(a.stack)-1], a.ro[:len(a.ro)-1] }
+func (a *adapter) pop() {
+	a.stack, a.ro, a.ctx = a.stack[:len(a.stack)-1], a.ro[:len(a.ro)-1], a.ctx[:len(a.ctx)-1]
+}
 
 // execute: the tree is complete - compile, deploy, run.
 func (a *adapter) execute() (engine.Fields, error) {
 	root := a.root
 	a.root = nil
-	return runProgram(a.w, root, a.base, a.seed, a.beh)
+	maxFlavour(root, func(n *Node) bool { return a.pick([]string{"", "", "", "max"}, 1000+n.ID) == "max" })
+	return runProgram(a.w, root, a.base, a.bal, a.seed, a.beh)
 }
+
+// gasCap: gas amounts are logged as TLC integers
+const gasCap = 1<<30 - 1
 
 // runProgram compiles and deploys the tree in a fresh committed base block and executes it on the real EVM: twice
 // with ample gas, twice with a seeded starved gas limit below what the ample run used (a real out-of-gas at an
 // arbitrary point), each execution on a fresh account.Manager over the same base block.
-func runProgram(w *world, root *Node, base map[string]map[string]int, seed int64, beh int) (engine.Fields, error) {
-	ample := root.plan()
-	h, err := w.deploy(root, base)
+func runProgram(w *world, root *Node, base map[string]map[string]int, bal map[string]int, seed int64, beh int) (engine.Fields, error) {
+	h, image, ample, err := w.deploy(root, base, bal)
 	if err != nil {
 		return nil, err
 	}
-	input := []byte{byte(root.ID)}
-	run := func(g uint64) map[string]interface{} {
-		return w.call(h, addrOf[root.To], input, g, root.Val, true, allNames).fields()
+	// (a tree with so many creations that burn 63/64 of the gas one after the other that the plan leaves TLC's
+	// integers: the run is still judged, only not compared with the prescription - it may starve)
+	capped := ample > gasCap
+	if capped {
+		ample = gasCap
 	}
-	r1 := w.call(h, addrOf[root.To], input, ample, root.Val, true, allNames)
+	run := func(g uint64) map[string]interface{} {
+		return w.runRoot(h, root, image, g).fields()
+	}
+	r1 := w.runRoot(h, root, image, ample)
 	runs := []map[string]interface{}{r1.fields(), run(ample)}
 	used := ample - r1.Left
 	if r1.Crash == "" && used > 1 {
@@ -173,7 +221,7 @@ func runProgram(w *world, root *Node, base map[string]map[string]int, seed int64
 	}
 	var prog []map[string]interface{}
 	root.actions(&prog)
-	return engine.Fields{"run": true, "strict": true, "tree": root.String(), "prog": prog, "runs": runs}, nil
+	return engine.Fields{"run": true, "strict": !capped, "capped": capped, "tree": root.String(), "prog": prog, "runs": runs}, nil
 }
 
 func fullBase(base map[string]map[string]int) map[string]map[string]int {
